@@ -362,6 +362,9 @@ func c02(c *core.Ctx) {
 	// writer that reports a flush problem as a write failure (a ResponseWriter without Flush behind some middleware)
 	// cuts the reply and the client sees "unexpected EOF" instead of the handler's status (C01/R12)
 	c.Borrow("C01", map[string]string{"R12": "R9"}, c01)
+	// the status details travel encoded by the codec the request's content type selected and are decoded with the
+	// proto codec: the client therefore sends exactly the content types whose codec that is (C11/R3)
+	c.Borrow("C11", map[string]string{"R3": "R11"}, c11)
 }
 
 // ---------------------------------------------------------------------------
